@@ -42,6 +42,7 @@ type childResult struct {
 	Violated   []string `json:"violated"` // rule|key
 	Undecided  []string `json:"undecided"`
 	Errors     []string `json:"errors"`
+	Regress    []string `json:"regress"` // rules whose obligation count fell below the floor on the variant
 }
 
 func variantsFor(prop string) []variant {
@@ -129,7 +130,7 @@ func runVariantChild(spec string) int {
 				res.Undecided = append(res.Undecided, o.Rule+"|"+o.Key)
 			}
 		}
-		res.Errors = append(res.Errors, regress...)
+		res.Regress = append(res.Regress, regress...)
 		for _, c := range crashes {
 			res.Errors = append(res.Errors, strings.SplitN(c, "\n", 2)[0])
 		}
@@ -231,9 +232,10 @@ func runSelfTests(prop string, rules []*Rule) map[string]interface{} {
 					}
 				} else {
 					o.Result = "silent"
-					if len(o.NewViol) > 0 || len(r.Undecided) > 0 {
+					if len(o.NewViol) > 0 || len(r.Undecided) > 0 || len(r.Regress) > 0 {
 						o.Result = "false-alarm"
 						o.NewViol = append(o.NewViol, r.Undecided...)
+						o.NewViol = append(o.NewViol, r.Regress...)
 					}
 				}
 			}
